@@ -147,6 +147,25 @@ func main() {
 	}
 	// select directives
 	var runs []*ObRun
+	// harness files dropped at load time because they no longer compile against the current tree
+	droppedInc := 0
+	seenDropped := map[string]bool{}
+	for _, df := range droppedHarness {
+		for _, line := range strings.Split(df.src, "\n") {
+			mm := directiveRe.FindStringSubmatch(strings.TrimSpace(line))
+			if mm == nil || mm[1] != "ob" {
+				continue
+			}
+			at := parseAttrs(mm[2])
+			for _, p := range strings.Split(at["prop"], ",") {
+				if (p == *prop || *prop == "all") && !seenDropped[at["name"]+"@"+df.config] {
+					seenDropped[at["name"]+"@"+df.config] = true
+					droppedInc++
+					fmt.Printf("INCONCLUSIVE property=%s obligation=%q reason=harness file %s does not compile against the current tree (the code it inspects was restructured): %s\n", p, at["name"]+"@"+df.config, filepath.Base(df.file), df.err)
+				}
+			}
+		}
+	}
 	needCfg := map[string]bool{}
 	for _, cf := range configs {
 		ld := loaded[cf]
@@ -503,7 +522,7 @@ func main() {
 	switch {
 	case len(violations) > 0:
 		os.Exit(1)
-	case nInc > 0:
+	case nInc > 0 || droppedInc > 0:
 		os.Exit(2)
 	}
 }
